@@ -310,13 +310,16 @@ func init() {
 			Preludes: pre, Alphabet: alpha, Depth: d,
 		}
 		if t == Thorough {
-			sc.Cfgs = cfgs([]int{1, 2}, []int{0, 62, 126, 190, 250}, one, u)
+			sc.Cfgs = cfgs([]int{1, 2}, []int{0}, one, u)
 		}
 		scs3 := []*engine.Scenario{sc}
-		if t == Quick {
+		{
 			hi := *sc
 			hi.Name = "C03-queries/high-ids"
 			hi.Cfgs = cfgs([]int{1}, []int{126, 190, 250}, one, u)
+			if t == Thorough {
+				hi.Cfgs = cfgs([]int{1}, []int{62, 126, 190, 250}, one, u)
+			}
 			hi.Depth = d - 1
 			hi.Preludes = pre[1:]
 			scs3 = append(scs3, &hi)
